@@ -358,7 +358,7 @@ Theorem roundtrip_exact i m s a cv locals :
   setting i m s a -> requirements_met (s_cfg s) (sign_encrypt i m a) = true ->
   first_conv (i_acs i) (name_form i) = Some cv ->
   map (fun kv => sp_name cv (s_acs s) (fst kv)) (g_identity a) = map Some locals ->
-  Forall (fun kv => eptid_ok cv (s_acs s) (fst kv) (snd kv) = true) (g_identity a) ->
+  Forall (fun kv => eptid_named cv (s_acs s) (fst kv) = true) (g_identity a) ->
   NoDup locals ->
   roundtrip i m s a =
     Ok {| v_name_id := Some (g_name_id a);
@@ -378,7 +378,7 @@ Qed.
 Theorem attributes_via_text cv sp_acs allow ident locals :
   legal_attributes (map (to_attr cv) ident) = true -> forallb no_cr_attribute (map (to_attr cv) ident) = true ->
   map (fun kv => sp_name cv sp_acs (fst kv)) ident = map Some locals ->
-  Forall (fun kv => eptid_ok cv sp_acs (fst kv) (snd kv) = true) ident ->
+  Forall (fun kv => eptid_named cv sp_acs (fst kv) = true) ident ->
   NoDup locals ->
   option_map (fun t => list_to_local sp_acs allow (attrs_of_statement_xml t))
              (xml_parse (serialise (attr_statement_xml (map (to_attr cv) ident)))) =
@@ -388,4 +388,27 @@ Proof.
   pose proof (attributes_through_text_exact _ Hl Hc) as T.
   destruct (xml_parse (serialise (attr_statement_xml (map (to_attr cv) ident)))) as [t|]; [|discriminate].
   cbn [option_map] in T |- *. injection T as ->. f_equal. apply attributes_exact; assumption.
+Qed.
+
+(* ... over tables that lose no name (the SP reports every key of the IdP-side table): every identity
+   over the table's keys, in any spelling, is read name by name under its own name or the listed alias *)
+Theorem roundtrip_table i m s a cv :
+  setting i m s a -> requirements_met (s_cfg s) (sign_encrypt i m a) = true ->
+  first_conv (i_acs i) (name_form i) = Some cv ->
+  lost_rows cv (s_acs s) = [] -> eptid_rows_ok cv (s_acs s) = true ->
+  Forall (fun kv => In (lower (fst kv)) (table_keys cv)) (g_identity a) ->
+  exists locals, Forall2 (reported_as cv (s_acs s)) (g_identity a) locals /\
+    (NoDup locals ->
+     roundtrip i m s a =
+       Ok {| v_name_id := Some (g_name_id a);
+             v_ava := combine locals (map (fun kv => plain_values (snd kv)) (g_identity a));
+             v_irt := Some (g_irt a);
+             v_issuer := i_entity_id i;
+             v_authn := read_authn (build_payload i a);
+             v_nooa := match g_session_nooa a with Some sn => sn | None => i_now i + lifetime i end;
+             v_came_from := expected_cf (s_cfg s) a |}).
+Proof.
+  intros H Hreq Hc Hl He Hk.
+  destruct (table_identity_reported cv (s_acs s) Hl He (g_identity a) Hk) as (locals & En & R & N).
+  exists locals. split; [exact R|]. intros Hd. now apply (roundtrip_exact i m s a cv locals).
 Qed.
